@@ -200,7 +200,8 @@ def check_copy_in(ctx):
                     v = defs[0] if len(defs) == 1 else v
                 ok = is_copy(prog, m.module, v) and len(v.args) == 1 \
                     and isinstance(v.args[0], ast.Name) and \
-                    v.args[0].id in m.params
+                    v.args[0].id in m.params and U(
+                        node.args[0]) == v.args[0].id + '.name'
                 n += 1
                 ctx.ob('C12.COPY-IN', ok, ctx.where(m.module, node), m.qual,
                        U(node)[:100],
@@ -230,6 +231,15 @@ def check_copy_in(ctx):
                 ok = is_copy(prog, m.module, v) and len(v.args) == 1 \
                     and isinstance(v.args[0], ast.Name) and \
                     v.args[0].id in m.params
+                # ... under the default's own name (the engine reads the
+                # keys of the registry as the names of its values)
+                if ok and U(t.expand(ev.node.slice)) != \
+                        v.args[0].id + '.name':
+                    ctx.ob('C12.COPY-IN', False, '%s:%d' % (ctx.where(
+                        m.module, m.node).split(':')[0], ev.line), m.qual,
+                        ev.text()[:100],
+                        'a default is registered under %s, not under its own '
+                        'name' % U(t.expand(ev.node.slice))[:40])
                 key = (ev.line, ok)
                 if key in seen:
                     continue
